@@ -269,6 +269,71 @@ def h_eliminable_counting_real(eng):
     eng.prove("elimreal.substituted_symbols_are_no_longer_unknowns", z3.BoolVal(all(not any(g is u for u in unknown_syms) for exprs, vars_, vals in log.calls for g in vars_)))
 
 
+# ------------------------------------------------------------------------------------------------ chains of eliminable variables
+def h_eliminable_chain_resolution(eng):
+    """The WHOLE eliminable-variable block on chains of helper variables written in every order (equations are unordered, so a helper
+    may be used before the equation that defines it), with ca.substitute / ca.is_equal given their real meaning on terms: after the
+    block no remaining equation, initial equation or delay argument refers to an eliminated variable, whatever the order -- the
+    expressions substituted for the helpers must have been resolved against each other to a fixed point."""
+    import itertools as _it
+    log = []
+    M.install(eng, dict(M.chain_module_functions(), **M.substitution_functions(log)))
+    from .C14 import FixedPattern
+    eng.ext_modules["re"].attrs["compile"] = stub(lambda eng, *a: FixedPattern())
+    dv = eng.module_global(eng.load_module(MODEL), "_DefaultValue")
+    dv.constructor = lambda eng, c, a, k: VObj(c, {"value": a[0] if a else 0})
+    wide = getattr(eng, "tier", "quick") == "thorough"
+    n = 1 + eng.choice(4 if wide else 3)
+    perms = list(_it.permutations(range(n)))
+    order = perms[eng.choice(len(perms))]
+    x, k = sym("x"), sym("k")
+    helpers = [sym("_v%d" % (i + 1)) for i in range(n)]
+    # _v1 = k*_v2 + 1; _v2 = k*_v3 + 2; ... ; _vn = k*x + n
+    defs = []
+    for i in range(n):
+        nxt = helpers[i + 1] if i + 1 < n else x
+        defs.append(E("OP_SUB", helpers[i], E("OP_ADD", E("OP_MUL", k, nxt), const(z3.RealVal(i + 1)))))
+    user = E("OP_SUB", sym("der(x)"), helpers[0])          # der(x) = _v1
+    init = E("OP_SUB", x, helpers[min(1, n - 1)])
+    delay_rec = []
+    eqs = [defs[i] for i in order]
+    where = eng.choice(3)
+    eqs.insert([0, len(eqs) // 2, len(eqs)][where], user)
+    eng.input("equations", [repr(e) for e in eqs])
+    var = lambda t: VObj(VClass("Variable"), {"symbol": t, "value": float("nan")})
+    model = M.new_model(eng, {"states": VList([var(x)]), "der_states": VList([var(user.deps[0])]), "alg_states": VList([var(h) for h in helpers]),
+                              "parameters": VList([var(k)]), "equations": VList(list(eqs)), "initial_equations": VList([init]),
+                              "delay_arguments": VList([("d",)])})
+
+    def rec(eng, selfobj, delay_arguments, symbols, values):
+        delay_rec.append((list(eng.iterate(symbols)), list(eng.iterate(values))))
+        return delay_arguments
+    rec._pyvc_method = True
+    model.cls.attrs["_substitute_delay_arguments"] = rec
+    opts = VDict([("eliminable_variable_expression", "_.*"), ("expand_mx", True)])
+    try:
+        eng.exec_fragment(MODEL, "Model._simplify_once", M.block_selector("eliminable_variable_expression"), {"self": model, "options": opts},
+                          label="eliminable-variable-block")
+    except PyRaise as e:
+        eng.prove("elimchain.no_exception", False, exc=repr(e.exc))
+        return
+    eng.cover("count.eliminable_chain")
+    gone = [h for h in helpers if not any(v.fields["symbol"] is h for v in model.fields["alg_states"].items + model.fields["states"].items)]
+    eng.prove("elimchain.every_helper_is_eliminated", z3.BoolVal(len(gone) == n), eliminated=[g.nm for g in gone])
+
+    def clean(t):
+        return not any(any(s_ is g for g in gone) for s_ in M.symbols_of(t))
+    left = model.fields["equations"]
+    left = left.items if isinstance(left, VList) else []
+    eng.prove("elimchain.no_remaining_equation_refers_to_an_eliminated_variable", z3.BoolVal(all(clean(e) for e in left)), equations=[repr(e)[:80] for e in left])
+    ie = model.fields["initial_equations"]
+    ie = ie.items if isinstance(ie, VList) else []
+    eng.prove("elimchain.no_initial_equation_refers_to_an_eliminated_variable", z3.BoolVal(all(clean(e) for e in ie)), initial_equations=[repr(e)[:80] for e in ie])
+    ok = bool(delay_rec) and all(all(clean(v) for v in vals) and all(any(g is s_ for s_ in syms_) for g in gone) for syms_, vals in delay_rec)
+    eng.prove("elimchain.delay_arguments_get_resolved_expressions_for_every_eliminated_variable", z3.BoolVal(bool(ok)))
+    eng.prove("elimchain.one_equation_dropped_per_helper", z3.BoolVal(len(left) == 1))
+
+
 # ------------------------------------------------------------------------------------------------ the four replace_* blocks
 class PV(E):
     """a parameter / constant value: a regular number, NaN (unspecified) or an expression over other parameters"""
@@ -350,11 +415,12 @@ def _make_alias_contract(eng):
 HARNESSES = [("Model._simplify_once#eliminate_constant_assignments/counting", h_constant_counting),
              ("Model._simplify_once#eliminable_variable_expression/counting", h_eliminable_counting),
              ("Model._simplify_once#eliminable_variable_expression/counting with the real extract_assignment", h_eliminable_counting_real),
+             ("Model._simplify_once#eliminable_variable_expression/chains in every order, real substitution", h_eliminable_chain_resolution),
              ("Model._simplify_once#detect_aliases/counting", h_alias_counting),
              ("Model._simplify_once#replace_* blocks", h_replace_blocks),
              ("Model._simplify_once._make_alias (only algebraic unknowns are eliminated)", _make_alias_contract),
              ("Model._simplify_once#reduce_affine_expression (one set of state vectors)", _reduce_affine_contract)]
-EXPECTED_COVER = {"count.const", "count.eliminable", "count.eliminable_real", "count.alias"} | {"replace." + o for o in REPLACE_OPTIONS} | {"make.done", "affine.done"}
+EXPECTED_COVER = {"count.const", "count.eliminable", "count.eliminable_real", "count.eliminable_chain", "count.alias"} | {"replace." + o for o in REPLACE_OPTIONS} | {"make.done", "affine.done"}
 BOUNDED = True
 LEVEL = "proof"
 TRUSTED = ["pyvc VC generator", "z3 5.1.0", "MX node algebra of contracts/mx_algebra.py", "ca.substitute(exprs, vars, values) removes the substituted symbols from exprs",
